@@ -852,9 +852,10 @@ def main(tier, replay):
     if hyg:
         not_shown.append("hygiene: " + "; ".join(hyg[:5]))
     # a defect-class shape is explained by its probe witness (already reported above)
-    if defect_shapes and not run.findings:
+    if defect_shapes and not any(common.match_known(PID, f["signature"]) is None for f in run.findings):
         not_shown.append("shape read from the code is the unrepaired one (%s) but no witness fails" % ", ".join(defect_shapes))
-    explained = bool(run.findings)
+    # only a NEW concrete failing input explains a broken obligation (a listed known finding does not)
+    explained = any(common.match_known(PID, f["signature"]) is None for f in run.findings)
     if not_shown and not explained:
         obj = dict(property=PID, no_failing_input=True, broken=not_shown, failed=r.get("failed", "")[:3000],
                    searched=dict(evaluations=run.evaluations, counts=run.counts), seed=common.seed(), repo=common.REPO)
